@@ -129,6 +129,31 @@ func coverOfLoop(f *Fn, fs *ast.ForStmt) *loopCover {
 		return nil
 	}
 	lc := &loopCover{fs: fs}
+	// shift: the body indexes the list with counter+shift (the same shift everywhere): for n := len(x); n > 0; n-- { x[n-1] }
+	shiftOf := func(list string) int64 {
+		var shift int64
+		first, mixed := true, false
+		ast.Inspect(fs.Body, func(n ast.Node) bool {
+			ix, ok := n.(*ast.IndexExpr)
+			if !ok || exprString(unalias(f, ix.X)) != list {
+				return true
+			}
+			b, o, ok := affineOf(f, ix.Index)
+			if !ok || b == nil || !isI(b) {
+				return true
+			}
+			if first {
+				shift, first = o, false
+			} else if o != shift {
+				mixed = true
+			}
+			return true
+		})
+		if mixed {
+			return 0
+		}
+		return shift
+	}
 	if dir == 1 {
 		// i from so (constant) up to a bound in terms of len(X)
 		if sb != nil || bb == nil {
@@ -148,11 +173,12 @@ func coverOfLoop(f *Fn, fs *ast.ForStmt) *loopCover {
 		default:
 			return nil
 		}
-		if so > 0 {
-			lc.first = fmt.Sprintf("starts at index %d", so)
+		k := shiftOf(list)
+		if so+k > 0 {
+			lc.first = fmt.Sprintf("starts at index %d", so+k)
 		}
-		if lastRel < -1 {
-			lc.last = fmt.Sprintf("stops at index len%+d", lastRel)
+		if lastRel+k < -1 {
+			lc.last = fmt.Sprintf("stops at index len%+d", lastRel+k)
 		}
 		return lc
 	}
@@ -174,11 +200,12 @@ func coverOfLoop(f *Fn, fs *ast.ForStmt) *loopCover {
 	default:
 		return nil
 	}
-	if firstIdx > 0 {
-		lc.first = fmt.Sprintf("stops at index %d", firstIdx)
+	k := shiftOf(list)
+	if firstIdx+k > 0 {
+		lc.first = fmt.Sprintf("stops at index %d", firstIdx+k)
 	}
-	if so < -1 {
-		lc.last = fmt.Sprintf("starts at index len%+d", so)
+	if so+k < -1 {
+		lc.last = fmt.Sprintf("starts at index len%+d", so+k)
 	}
 	return lc
 }
